@@ -431,7 +431,7 @@ func record(section string, c gcase) string {
 	}
 	rc := measureReach(c, b)
 	// the derived bound must dominate the exact discretisation error (continuous numeric validation of epsilon)
-	if math.Abs(rc.Disc) > b.Eps*(1+1e-9)+1e-12 {
+	if math.Abs(rc.Disc) > b.Eps*(1+1e-9)+1e-10 {
 		return fmt.Sprintf("derived bound eps=%g is below the exact discretisation error %g for %s", b.Eps, rc.Disc, c)
 	}
 	nt := nontrivial(c, b)
@@ -477,7 +477,7 @@ func record(section string, c gcase) string {
 	add(rc.Shift, "sees-weight-index-shift")
 	add(rc.SumNotMean, "sees-sum-instead-of-mean")
 	stats.Case(section, c.key(), nt, cls, func() any {
-		return map[string]any{"case": c, "repeat": c.R().String(), "tick": c.F.String(), "peak": c.Peak.String(),
+		return map[string]any{"input": c, "repeat": c.R().String(), "tick": c.F.String(), "peak": c.Peak.String(),
 			"stddev": c.Sigma.String(), "bound": b, "reach": rc}
 	})
 	return ""
